@@ -228,6 +228,8 @@ def _generate_code(
     classes = []
     generators = []
     for data in structure:
+        # The generator sanitizes the name of its model, so it has to exist before nested classes render references to that name
+        generator = class_generator(data["model"], **class_generator_kwargs)
         nested_imports, nested_classes = _generate_code(
             data["nested"],
             class_generator,
@@ -235,10 +237,7 @@ def _generate_code(
             lvl=lvl + 1
         )
         imports.extend(nested_imports)
-        generators.append((
-            class_generator(data["model"], **class_generator_kwargs),
-            nested_classes
-        ))
+        generators.append((generator, nested_classes))
     for gen, nested_classes in generators:
         cls_imports, cls_string = gen.generate(nested_classes)
         imports.extend(cls_imports)
